@@ -11,6 +11,7 @@ from ..govern import field_reads_of_slice, field_reads_of_place
 from ..quote import chains
 
 LEVEL = 'other'
+TECHNIQUE = 'static analysis: who-may-construct + dominance (validated constructor), provenance of labels and patterns, case evaluation of conflict reporting (flag/counter/early return), normalisation classes guard-side vs generated host-side (tier B), identifier oracle provenance, numbering agreement'
 CLAUSE = ('DomainGuard values are built only by DomainGuard::new after validate()? succeeded; validate() splits the input it was given, '
           'unmodified, into labels; detect_domain_conflicts inserts matchit_pattern() of every registered guard, with no filter, and any '
           'insert error yields Err; the generated router is initialised from the same matchit_pattern(); the normalising string '
